@@ -41,6 +41,18 @@ also accessed from other POSITIONS: inside an included template, inside a
 macro of an imported template (argument / shared context), inside a block of a
 child template, inside a call block.
 
+The receiver of a STRING METHOD (format / format_map reached by call, subscript,
+|attr, map(attribute=), map('attr'), stored in set / with / list / dict / macro
+argument) is not only a str literal or Markup: the type of the format string is a
+workload dimension (vt/gen/c17_strtypes.py): exact str, plain str subclass,
+subclass with __html__, subclass overriding format / format_map and delegating
+to str, subclass with __slots__ / own __repr__ / __eq__, second-level subclass,
+Markup, Markup subclass, Markup subclass overriding format; handed in as a data
+value (name, dict value, list item, set alias, |first, result of a data object's
+method) or produced by a custom filter or by a gettext-like context callable
+(`gettext(...)`, `_(...)`).  The private field path of the format string is the
+template-chosen name; all oracles apply unchanged.
+
 Oracle per render
  (1) no Tracer operation, no Tracer token in the output, the recording callable
      `sink` never receives a Tracer / a non-undefined value for a forbidden
@@ -65,15 +77,17 @@ from __future__ import annotations
 
 import ast
 import collections
+import re
 import sys
 import types
 
 from vt.gen import c17_routes as R
+from vt.gen import c17_strtypes as S
 from vt.mon import c17_probe as P
 
 PID = "C17"
 LEVEL = "exploration"
-TECHNIQUE = "probe objects with caller-frame classification + tracer values + wrapped is_safe_attribute + AST check of generated code, over an adversarial access-path grammar (data objects, literals, engine objects, import statements)"
+TECHNIQUE = "probe objects with caller-frame classification + tracer values + wrapped is_safe_attribute + AST check of generated code, over an adversarial access-path grammar (data objects, literals, engine objects, import statements, typed format-string receivers)"
 RULE = ("case = (base object expression [probe root/child/list element/method result/loop or "
         "macro or set alias | real function, method, generator, coroutine, async generator, "
         "class, frame, code, traceback, namedtuple, module, str, int | literal written in the "
@@ -92,7 +106,12 @@ RULE = ("case = (base object expression [probe root/child/list element/method re
         "unique/groupby/sum/min/max/join attribute arguments incl. dotted+integer paths, "
         "str.format / format_map / Markup.format with positional, keyword, index, conversion, "
         "spec and nested-spec fields, stored bound format methods via set/attr/subscript/map/"
-        "macro, {% from X import NAME [as ALIAS] %} alone / first / last / twice / trailing comma / "
+        "macro - the format string being a literal or, for every string-method form, a value of "
+        "type [exact str, str subclass: plain / with __html__ / overriding format+format_map via "
+        "super / __slots__ + own __repr__ + __eq__ / second level, Markup, Markup subclass, Markup "
+        "subclass overriding format] provided as [data name, dict value, list item, set alias, "
+        "|first, data-object method result, custom filter result, gettext(...) / _(...) result], "
+        "{% from X import NAME [as ALIAS] %} alone / first / last / twice / trailing comma / "
         "private alias / no alias, with / without context], consumption form, environment variant [sync/async x autoescape x undefined "
         "type x immutable x optimizer on/off]); core = every (access form x object kind x name category) once, "
         "rest seeded sampling; distinct by that tuple; non-trivial when the harness itself can "
@@ -112,6 +131,7 @@ ASSUMPTIONS = [
     "engine-object receivers: the private names are those of an instance of the same construct grabbed by a context callable in an unsandboxed render of the same jinja tree (underscore names in dir() / instance dict / type that the harness can fetch, the escape-primitive dunders, the documented internal names); only forbidden names are generated for them (their public attributes, e.g. Template.environment, are outside this property); names containing the grammar's placeholder letter 'B' are skipped",
     "{% from X import NAME as ALIAS %}: NAME is an attribute name of the imported template's module chosen by the template; docs/templates.rst (Import Visibility: 'macros and variables starting with one or more underscores are private and cannot be imported') makes TemplateSyntaxError the expected outcome; a compiled statement must still deliver an undefined value",
     "subscripting an undefined RECEIVER raises UndefinedError, accepted as a refusal for that receiver kind only; `dict` is not used as a class receiver because dict['x'] is a types.GenericAlias (item access on a generic class), not an attribute",
+    "typed format-string receivers: a format string is any instance of str (subclasses included: the statement's 'str.format, format_map, Markup.format' are the methods, inherited or overridden-and-delegating, of whatever str instance the template holds); the subclasses used construct from one str argument (the sandbox rebuilds the result with type(receiver)(text)); the expected outcome for a private / internal field is the same as for a literal format string",
     "structural rule: attribute names the engine's own generated code uses (e.g. .__name__ of an imported template for an error message) are discounted by compiling the same template with a neutral attribute name",
 ]
 NSHARDS = {"quick": 16, "thorough": 16}
@@ -129,7 +149,11 @@ FLOORS = {
                            "unoptimized_renders": 500,
                            "engine_route_cases": 170, "engine_route_rendered": 130,
                            "from_import_cases": 30, "from_import_cases:alias": 22,
-                           "aux_template_cases": 250, "route_controls_ok": 32}},
+                           "aux_template_cases": 250, "route_controls_ok": 32,
+                           "strtype_format_cases": 400, "strtype_subclass_cases": 300,
+                           "strtype_controls_ok": 12,
+                           **{"strtype_format_cases:" + k: 30 for k in S.STR_KINDS},
+                           **{"strtype_provider_cases:" + k: 30 for k in S.PROVIDERS}}},
     "thorough": {"evaluations": 60000, "distinct": 50000,
                  "counters": {"probe_fetches": 250000, "consults": 80000, "rule3_checks": 50000,
                               "nonprotocol_fetches": 50000, "sink_undefined": 5000,
@@ -142,7 +166,11 @@ FLOORS = {
                               "unoptimized_renders": 6000,
                               "engine_route_cases": 4000, "engine_route_rendered": 3000,
                               "from_import_cases": 800, "from_import_cases:alias": 600,
-                              "aux_template_cases": 6000, "route_controls_ok": 32}},
+                              "aux_template_cases": 6000, "route_controls_ok": 32,
+                              "strtype_format_cases": 3000, "strtype_subclass_cases": 2000,
+                              "strtype_controls_ok": 12,
+                              **{"strtype_format_cases:" + k: 250 for k in S.STR_KINDS},
+                              **{"strtype_provider_cases:" + k: 250 for k in S.PROVIDERS}}},
 }
 
 # ------------------------------------------------------------------- data
@@ -491,6 +519,15 @@ FROM_KINDS = [k for k in R.ENGINE_KINDS if any(e[3] for e in R.ENGINE_BASES[k].v
 DIRECT_ACCESS = {"dot", "subscript", "subscript_dq", "attr_filter"}
 NEED_PARENT = {"map_dotted", "selectattr_dotted", "format_dotted"}
 FORMAT_ACCESS = {k for k in ACCESS if "format" in k}
+#: the format-string literal of a string-method access form
+FMT_LITERAL = re.compile(r"'(<\{[^']*\}>)'")
+#: string-method access forms whose receiver is a bare string literal: the TYPE of
+#: that receiver is a workload dimension of its own (case["fmtrecv"] = [kind,
+#: provider], tables in vt/gen/c17_strtypes.py): the literal is replaced by a
+#: context value / filter result / gettext result of a str subclass
+STRTYPE_ACCESS = [k for k, v in ACCESS.items()
+                  if k in FORMAT_ACCESS and (FMT_LITERAL.search(v[0] + v[1]) or v[1] == "WITHFORMAT")
+                  and "|safe" not in v[0] + v[1] and "|escape" not in v[0] + v[1]]
 
 # consumption forms: E = expression; outcome = which precise outcome check applies
 CONSUME = {
@@ -548,6 +585,12 @@ def compose(case):
 def compose_all(case):
     """-> (main source, {name: source of auxiliary templates the main one
     includes / imports / extends})"""
+    return _compose(case)[:2]
+
+
+def _compose(case):
+    """-> (main source, auxiliary templates, text of the format string that
+    case["fmtrecv"] turned into a typed context value / None)"""
     entry = bases_for(case["obj"])[case["base"]]
     wrap, bexpr, parent = entry[:3]
     src = entry[3] if len(entry) > 3 else None
@@ -568,8 +611,19 @@ def compose_all(case):
                 + CONSUME[case["consume"]][0].replace("E", f"f({bexpr})") + "{% endwith %}")
     else:
         body = fill(prelude) + CONSUME[case["consume"]][0].replace("E", fill(expr))
+    text = None
+    if case.get("fmtrecv"):
+        # the receiver of the string method is not a literal but a string of the
+        # given type coming from the given provider
+        kind, prov = case["fmtrecv"]
+        m = FMT_LITERAL.search(body)
+        text = m.group(1)
+        pre, pexpr = S.PROVIDERS[prov]
+        pexpr = pexpr.replace("TEXT", text).replace("KIND", kind)
+        body = pre + body[:m.start()] + pexpr + body[m.end():]
     main, _, aux = wrap.partition("@@")
-    return main.replace("BODY", body), ({R.AUX_NAME: aux.replace("BODY", body)} if aux else {})
+    return (main.replace("BODY", body), ({R.AUX_NAME: aux.replace("BODY", body)} if aux else {}),
+            text)
 
 
 # ------------------------------------------------------------ environment
@@ -588,6 +642,7 @@ def get_env(case):
         env = cls(enable_async=case["async"], autoescape=case["autoescape"],
                   undefined=getattr(jinja2, case["undefined"]), cache_size=0,
                   optimized=optimized, loader=jinja2.DictLoader(dict(R.HELPERS)))
+        env.filters.update(S.filters())
         env.vt_orig_isa = env.is_safe_attribute
         _envs[key] = env
     return env
@@ -647,7 +702,8 @@ def run_case(ctx, case, count=True):
     from jinja2.exceptions import SecurityError, TemplateSyntaxError
     from markupsafe import Markup
 
-    source, aux = compose_all(case)
+    source, aux, fmt_text = _compose(case)
+    fmtrecv = case.get("fmtrecv")
     env = get_env(case)
     log = P.Log()
     received = []
@@ -674,6 +730,8 @@ def run_case(ctx, case, count=True):
     data = {"nm": name, "sink": sink, "fmtstr": "<{0.%s}>" % name,
             "fmtmarkup": Markup("<{x.%s}>" % name), "seq": [1]}
     forbidden_value = None
+    if fmtrecv:
+        data.update(S.data_for(fmtrecv[0], fmt_text))
     if is_probe:
         p = P.Probe(log, "p")
         p2 = P.Probe(log, "p2")
@@ -717,10 +775,20 @@ def run_case(ctx, case, count=True):
     full = dict(case, source=source, aux=aux)
     names = template_names(case)
     mech = f"{case['access']}:{case['obj']}:{name_category(name, case['obj'])}"
+    if fmtrecv:
+        # (the type of the string whose method is reached, and where it came from)
+        mech = f"{case['access']}[{fmtrecv[0]} via {fmtrecv[1]}]:{case['obj']}:" \
+               f"{name_category(name, case['obj'])}"
     dist_key = [case[k] for k in ("obj", "base", "name", "access", "consume", "async",
                                   "autoescape", "undefined", "immutable")] \
-        + [case.get("optimized", True)]
+        + [case.get("optimized", True)] + list(fmtrecv or ())
     if count:
+        if fmtrecv:
+            ctx.count("strtype_format_cases")
+            ctx.count("strtype_format_cases:" + fmtrecv[0])
+            ctx.count("strtype_provider_cases:" + fmtrecv[1])
+            if fmtrecv[0] in S.SUBCLASS_KINDS:
+                ctx.count("strtype_subclass_cases")
         if is_engine:
             ctx.count("engine_route_cases")
             ctx.count("engine_route_cases:" + case["obj"])
@@ -813,7 +881,9 @@ def run_case(ctx, case, count=True):
             ctx.count("format_cases")
         ctx.count("value_oracle_checks", log.value_checks)
         ctx.dist(dist_key)
-    where = f"{source!r} (obj={case['obj']}, async={case['async']}, autoescape={case['autoescape']}, " \
+    where = f"{source!r} (obj={case['obj']}, " \
+            + (f"format string = {fmtrecv[0]} {fmt_text!r} via {fmtrecv[1]}, " if fmtrecv else "") + \
+            f"async={case['async']}, autoescape={case['autoescape']}, " \
             f"undefined={case['undefined']}, optimized={case.get('optimized', True)}) -> {exc or out!r}"
     # ---- (1) tracer silence / tokens / hand-over
     if tracer_ops:
@@ -1014,6 +1084,47 @@ def route_control(ctx, is_async, autoescape):
         ctx.count("route_controls_ok")
 
 
+STRTYPE_CONTROL_ACCESS = ["format_pos", "format_kw", "format_map", "stored_format",
+                          "stored_format_map", "attr_filter_format", "attr_filter_format_map",
+                          "subscript_format", "map_attribute_format", "map_attr_filter_format",
+                          "macro_param_format", "with_format", "stored_format_in_list",
+                          "stored_format_in_dict"]
+
+
+def strtype_control(ctx, is_async, autoescape):
+    """Monitor sanity for the typed format-string receivers: with every receiver
+    kind x provider the string-method routes are alive in the sandboxed
+    environments used here and a PUBLIC field is formatted (no over-blocking, and
+    a private field would have something to deliver)."""
+    ok = True
+    n = 0
+    for kind in S.STR_KINDS:
+        for prov in S.PROVIDERS:
+            n += 1
+            access = STRTYPE_CONTROL_ACCESS[(n + ctx.shard) % len(STRTYPE_CONTROL_ACCESS)]
+            case = {"obj": "probe", "base": "root", "name": "pub", "access": access, "consume": "sink",
+                    "async": is_async, "autoescape": autoescape, "undefined": "Undefined",
+                    "immutable": False, "fmtrecv": [kind, prov]}
+            source, aux, text = _compose(case)
+            env = get_env(case)
+            log = P.Log()
+            got = []
+            data = {"p": P.Probe(log, "p"), "sink": lambda v: got.append(v) or ""}
+            data.update(S.data_for(kind, text))
+            try:
+                env.from_string(source).render(**data)
+            except Exception as e:
+                got.append(f"{type(e).__name__}: {e}")
+            # (a macro in an autoescaping environment returns the escaped text)
+            if [str(g).replace("&lt;", "<").replace("&gt;", ">") for g in got] != ["<PUBVAL-p>"] \
+                    or not isinstance(got[0], str):
+                ok = False
+                ctx.inconc(f"typed format-string self-test failed: {source!r} ({kind} via {prov}) "
+                           f"-> {got!r}")
+    if ok:
+        ctx.count("strtype_controls_ok")
+
+
 # ------------------------------------------------------------------ cases
 def env_variant(i):
     return {"async": i % 3 == 0, "autoescape": i % 2 == 0,
@@ -1102,6 +1213,31 @@ def core_cases():
                      "access": access, "consume": LIT_SINKS[i % len(LIT_SINKS)], **env_variant(i)}
                 if applicable(c):
                     out.append(c)
+    # typed format-string receivers: every (string-method access form x receiver
+    # kind x provider) with a probe (rotating private name / base) and with a real
+    # object (rotating kind / forbidden name)
+    pb = [b for b in PROBE_BASES]
+    for access in STRTYPE_ACCESS:
+        for skind in S.STR_KINDS:
+            for prov in S.PROVIDERS:
+                i += 1
+                c = {"obj": "probe", "base": pb[i % len(pb)],
+                     "name": P.PRIVATE_NAMES[(i + i // len(pb)) % len(P.PRIVATE_NAMES)],
+                     "access": access, "consume": sinks[i % len(sinks)], **env_variant(i),
+                     "fmtrecv": [skind, prov]}
+                if not applicable(c):
+                    c["base"] = "child"
+                out.append(c)
+                i += 1
+                kind = REAL_KINDS[i % len(REAL_KINDS)]
+                names = real_forbidden_names(kind)
+                rb = list(REAL_BASES)
+                c = {"obj": kind, "base": rb[(i + i // len(sinks)) % len(rb)],
+                     "name": names[(i // len(REAL_KINDS)) % len(names)],
+                     "access": access, "consume": sinks[i % len(sinks)], **env_variant(i),
+                     "fmtrecv": [skind, prov]}
+                if applicable(c):
+                    out.append(c)
     return out
 
 
@@ -1146,6 +1282,8 @@ def random_case(rng):
         consume = rng.choice(CHECKED_CONSUME if rng.random() < 0.4 else list(CONSUME))
         c = {"obj": obj, "base": base, "name": name, "access": access,
              "consume": consume, **env_variant(rng.randrange(420))}
+        if access in STRTYPE_ACCESS and rng.random() < 0.4:
+            c["fmtrecv"] = [rng.choice(list(S.STR_KINDS)), rng.choice(list(S.PROVIDERS))]
         if applicable(c):
             return c
 
@@ -1160,6 +1298,7 @@ def run(ctx):
             public_control(ctx, a, ae)
             value_control(ctx, a, ae)
             route_control(ctx, a, ae)
+    strtype_control(ctx, ctx.shard % 2 == 1, ctx.shard % 4 >= 2)
     core = core_cases()
     ctx.extra["core_cases_total"] = len(core) if ctx.shard == 0 else 0
     stride = 5 if quick else 1
